@@ -180,10 +180,10 @@ Definition p_mark (st : pstate) : res (nat * pstate) :=
   end.
 
 (* ParserState *)
-Record saved := mkSaved { sv_pos : nat; sv_cur : tok; sv_tm : tmark; sv_diags : nat }.
+Record saved := mkSaved { sv_pos : nat; sv_cur : tok; sv_tm : tmark; sv_diags : nat; sv_err : option nat; sv_esa : bool }.
 
 Definition p_get_state (st : pstate) : saved * pstate :=
-  (mkSaved (pos st) (cur st) (c_mark_truncation (cstd st)) (length (diags st)),
+  (mkSaved (pos st) (cur st) (c_mark_truncation (cstd st)) (length (diags st)) (err_node st) (esa st),
    mkSt (cstd st) (pos st) (cur st) (err_node st) (in_choice st) (esa st) (diags st) (log st)
         (gstep st BSnap) (c_mark_truncation (cstd st) :: snaps st)).
 
@@ -200,9 +200,14 @@ Fixpoint delete_events (deletable : kind -> bool) (l : list node) (i : nat) : li
 (* fn set_state(&mut self, state, diags); the newest live snapshot is the one restored *)
 Definition p_set_state (deletable : kind -> bool) (st : pstate) (sv : saved) : pstate :=
   let n := tm_nodes (sv_tm sv) in
-  mkSt (c_truncate (cstd st) (sv_tm sv)) (sv_pos sv) (sv_cur sv) (err_node st) (in_choice st) (esa st)
+  (* a pending error node that the abandoned alternative closed (and announced) is announced as deleted *)
+  let del_err := match sv_err sv, err_node st with
+                 | Some m, None => if deletable kError then [EDelete kError m] else []
+                 | _, _ => []
+                 end in
+  mkSt (c_truncate (cstd st) (sv_tm sv)) (sv_pos sv) (sv_cur sv) (sv_err sv) (in_choice st) (sv_esa sv)
        (firstn (sv_diags sv) (diags st))
-       (log st ++ delete_events deletable (skipn n (nodes (cstd st))) n)
+       (log st ++ del_err ++ delete_events deletable (skipn n (nodes (cstd st))) n)
        (gstep st (BRestore 0)) (snaps st).
 
 (* end of life of the newest ParserState (ghost only) *)
